@@ -2,6 +2,7 @@ package rules
 
 import (
 	"fmt"
+	"go/ast"
 	"go/types"
 	"sort"
 	"strings"
@@ -34,6 +35,8 @@ func Dev(name string, c *core.Ctx) {
 	switch name {
 	case "bituses":
 		DumpBitUses(c)
+	case "dbgenc":
+		DebugEncodeString(c)
 	case "pkgstate":
 		DumpPkgState(c)
 	default:
@@ -100,6 +103,9 @@ func DumpIR(c *core.Ctx, dialect, fn string) {
 // DumpAsm prints sequence counts of emitter methods (developer aid).
 func DumpAsm(c *core.Ctx, rel, recv, only string) {
 	a := newAsmCtx(c.Prog, rel, recv)
+	if rel == "internal/encoder/x86" {
+		a.noInline = map[string]bool{"add_text": true, "store_str": true, "check_size": true, "check_size_r": true, "check_size_rl": true, "slice_grow_ax": true}
+	}
 	for _, fd := range sortedFuncDecls(a.methods()) {
 		if only != "" && fd.Name.Name != only {
 			continue
@@ -117,5 +123,34 @@ func DumpAsm(c *core.Ctx, rel, recv, only string) {
 				fmt.Println("  ----")
 			}
 		}
+	}
+}
+
+func DebugEncodeString(c *core.Ctx) {
+	a := newAsmCtx(c.Prog, "internal/encoder/x86", "Assembler")
+	a.noInline = map[string]bool{"add_text": true, "store_str": true, "check_size": true, "check_size_r": true, "check_size_rl": true, "slice_grow_ax": true}
+	fd := core.FuncDecl(a.pk, "Assembler", "encode_string")
+	par := c.Prog.ObjectOf(fd.Type.Params.List[0].Names[0])
+	env := asmEnv{par: envVal{isBool: true, b: true}}
+	ast.Inspect(fd.Body, func(n ast.Node) bool {
+		if ifs, ok := n.(*ast.IfStmt); ok {
+			v, ok := a.evalIn(ifs.Cond, env)
+			fmt.Printf("cond %s -> %+v %v\n", exprStr(ifs.Cond), v, ok)
+		}
+		return true
+	})
+	seqs, ok := a.seqs(fd, env, 1)
+	fmt.Println("seqs", len(seqs), ok)
+	for _, sq := range seqs {
+		for _, o := range sq.Ops {
+			fmt.Println("    ", o.Kind, o.String())
+		}
+	}
+	paths, ok2, why := EnumPathsFull(c.Prog, fd, fd.Body.List, 3, 4096, nil, nil, nil, nil)
+	fmt.Println("paths", len(paths), ok2, why)
+	for _, cn := range []string{"check_size_r", "add_char", "add_long", "save_c", "call_c", "check_size", "add_text", "slice_grow_ax"} {
+		cfd := core.FuncDecl(a.pk, "Assembler", cn)
+		s2, ok3 := a.seqs(cfd, asmEnv{}, 2)
+		fmt.Println(cn, len(s2), ok3)
 	}
 }
